@@ -42,6 +42,11 @@ def run(ctx, res):
             srcs.append(b's=' + q + bytes([v]) + q + b' t=' + q + b'\\%d' % v + q + b' u=' + q + b'\\%03d7' % v + q + b' w=' + q + b'\\x%02x' % v + q)
     srcs += [b'x="a\\\nb"\n', b'x=[[\nabc]]', b'x=[==[a]]b]=]c]==]', b'a=1\r\nb=2\r\n', b'a=1', b'', b'\n', b'-- only a comment', b'x="\\0001" y="\\0141"',
              b'x="\\x41" y="\\z"', b'--[[ a\nb ]] x = 1 // c\n']
+    # every two- and three-byte glyph sequence an editor might treat specially, as an identifier prefix, alone and inside strings/comments
+    # (UTF-8 BOM EF BB BF, UTF-16 BOMs, NBSP, zero-width joiners as raw P8SCII glyph bytes)
+    for seq in (b'\xef\xbb\xbf', b'\xff\xfe', b'\xfe\xff', b'\xc2\xa0', b'\xe2\x80\x8b', b'\xe2\x80\xa8', b'\x80\x81'):
+        srcs += [seq + b'x=1\n', seq + b'=2\n', b'y=' + seq + b'\n', b'a=1\n' + seq + b'b=2\n', b's="' + seq + b'" --' + seq + b'\n',
+                 b'z=' + seq + seq + b'+1\n', b'[[' + seq + b']]', seq]
     spec_lines, model_lines, impl = [], [], []
     for s in srcs:
         try:
